@@ -142,6 +142,7 @@ type world struct {
 	dec      *lib.Decoder
 	m        *model
 	timerKey map[int]int // vclock timer id -> key index
+	nTimers  int         // timers of the clock already attributed (see attribute)
 	r        *rand.Rand
 	word     []string
 	overtake int // refresh/replace/delete executed while a callback of that key was pending or running
@@ -235,41 +236,98 @@ func (w *world) sync(m *model) {
 func (w *world) timerInvariants() bool {
 	snap := w.dec.CP.VerifTemplates()
 	owned := map[*vclock.Timer]bool{}
+	wrapped := false
+	checkArmed := func(ti collector.VerifTemplateInfo, vt *vclock.Timer) bool {
+		armed, when := vt.Armed()
+		if !armed {
+			return true
+		}
+		// armed for the deadline, or earlier (an implementation may let the timer fire at an older target and
+		// re-arm it then: the callback rules cover that); armed for later, the template would outlive its lifetime
+		if when.After(ti.ExpiryTime) {
+			return w.fail("timer-misarmed", fmt.Sprintf("template (%d,%d): timer armed for %ds, after the end of the lifetime at %ds", ti.ObsDomainID, ti.TemplateID, when.Unix()-t0.Unix(), ti.ExpiryTime.Unix()-t0.Unix()))
+		}
+		if when.Before(ti.ExpiryTime) {
+			w.c.Add("timers_armed_before_the_deadline", 1)
+		}
+		return true
+	}
 	for _, ti := range snap {
-		vt, ok := ti.Timer.(*vclock.Timer)
-		if !ok || vt == nil {
-			return w.fail("no-timer", fmt.Sprintf("stored template (%d,%d) has no expiry timer", ti.ObsDomainID, ti.TemplateID))
-		}
-		if owned[vt] {
-			return w.fail("shared-timer", fmt.Sprintf("two stored templates share timer %d", vt.ID))
-		}
-		owned[vt] = true
+		ki := -1
 		for i, kk := range w.keys {
 			if kk.dom == ti.ObsDomainID && kk.tid == ti.TemplateID {
-				w.timerKey[vt.ID] = i
+				ki = i
 			}
 		}
-		armed, when := vt.Armed()
-		if armed {
-			// armed for the deadline, or earlier (an implementation may let the timer fire at an older target and
-			// re-arm it then: the callback rules cover that); armed for later, the template would outlive its lifetime
-			if when.After(ti.ExpiryTime) {
-				return w.fail("timer-misarmed", fmt.Sprintf("template (%d,%d): timer armed for %ds, after the end of the lifetime at %ds", ti.ObsDomainID, ti.TemplateID, when.Unix()-t0.Unix(), ti.ExpiryTime.Unix()-t0.Unix()))
+		if vt, ok := ti.Timer.(*vclock.Timer); ok && vt != nil {
+			// the template's timer is the clock's own object: identity is known
+			if owned[vt] {
+				return w.fail("shared-timer", fmt.Sprintf("two stored templates share timer %d", vt.ID))
 			}
-			if when.Before(ti.ExpiryTime) {
-				w.c.Add("timers_armed_before_the_deadline", 1)
+			owned[vt] = true
+			if ki >= 0 {
+				w.timerKey[vt.ID] = ki
 			}
-		} else if !w.clk.InFlight(vt) {
+			if !checkArmed(ti, vt) {
+				return false
+			}
+			if armed, _ := vt.Armed(); !armed && !w.clk.InFlight(vt) {
+				return w.fail("no-expiry-pending", fmt.Sprintf("stored template (%d,%d) has neither an armed timer nor a callback in flight: it will never expire", ti.ObsDomainID, ti.TemplateID))
+			}
+			continue
+		}
+		if ti.Timer == nil {
+			return w.fail("no-timer", fmt.Sprintf("stored template (%d,%d) has no expiry timer", ti.ObsDomainID, ti.TemplateID))
+		}
+		// the implementation wraps the clock's timer in an object of its own: the clock's timers are attributed
+		// to templates by the operation during which they were created (attribute)
+		wrapped = true
+		var armedT []*vclock.Timer
+		inflight := false
+		for _, t := range w.clk.AllTimers() {
+			if k2, known := w.timerKey[t.ID]; known && k2 == ki {
+				if a, _ := t.Armed(); a {
+					armedT = append(armedT, t)
+					owned[t] = true
+				}
+				if w.clk.InFlight(t) {
+					inflight = true
+				}
+			}
+		}
+		switch {
+		case len(armedT) > 1:
+			return w.fail("several-armed-timers", fmt.Sprintf("stored template (%d,%d) has %d armed timers", ti.ObsDomainID, ti.TemplateID, len(armedT)))
+		case len(armedT) == 0 && !inflight:
 			return w.fail("no-expiry-pending", fmt.Sprintf("stored template (%d,%d) has neither an armed timer nor a callback in flight: it will never expire", ti.ObsDomainID, ti.TemplateID))
+		case len(armedT) == 1:
+			if !checkArmed(ti, armedT[0]) {
+				return false
+			}
 		}
 	}
 	for _, vt := range w.clk.ArmedTimers() {
 		if !owned[vt] {
+			if _, known := w.timerKey[vt.ID]; wrapped && !known {
+				continue // created during a concurrent step by either side: cannot be attributed
+			}
 			return w.fail("orphan-timer", fmt.Sprintf("timer %d is armed but belongs to no stored template", vt.ID))
 		}
 	}
 	w.c.Add("invariant_checks", 1)
 	return true
+}
+
+// attribute maps the clock timers created since the last call to the key on whose behalf the operation ran
+// (key < 0: unknown). Only used when the template's timer is not the clock's own object.
+func (w *world) attribute(key int) {
+	all := w.clk.AllTimers()
+	for _, t := range all[w.nTimers:] {
+		if _, known := w.timerKey[t.ID]; !known && key >= 0 {
+			w.timerKey[t.ID] = key
+		}
+	}
+	w.nTimers = len(all)
 }
 
 // doMsg presents T/B/D and returns whether it was accepted.
@@ -304,6 +362,7 @@ func (w *world) step(o op) (bool, bool) {
 		}
 		wantAcc := w.m.applyOp(o)
 		acc, ok := w.doMsg(o)
+		w.attribute(o.key)
 		if !ok {
 			return true, false
 		}
@@ -340,6 +399,9 @@ func (w *world) step(o op) (bool, bool) {
 			}
 			if ki, ok := w.timerKey[r.P.T.ID]; ok {
 				w.m.applyCallback(ki, r.P.Due)
+				w.attribute(ki)
+			} else {
+				w.attribute(-1)
 			}
 			w.c.Add("callbacks_started", 1)
 			w.c.Add("callbacks_completed", 1)
@@ -370,6 +432,9 @@ func (w *world) step(o op) (bool, bool) {
 		}
 		if known {
 			w.m.applyCallback(ki, r.P.Due)
+			w.attribute(ki)
+		} else {
+			w.attribute(-1)
 		}
 		w.c.Add("callbacks_completed", 1)
 	case "C":
@@ -437,6 +502,11 @@ func (w *world) step(o op) (bool, bool) {
 		default:
 			return true, w.fail("concurrent-outcome", fmt.Sprintf("%s: accepted=%v and the table match neither serialisation (callback first: must-accept=%v %s; operation first: must-accept=%v %s)", o, acc, accA == must, whyA, accB == must, whyB))
 		}
+		if o.sub.kind == "T" {
+			w.attribute(o.sub.key)
+		} else {
+			w.attribute(ki)
+		}
 		w.sync(w.m)
 		w.overtake++
 		return true, w.timerInvariants()
@@ -455,12 +525,9 @@ func (w *world) step(o op) (bool, bool) {
 }
 
 func (w *world) pendingForKey(ki int) bool {
-	// pending callbacks are not individually exposed; approximate through InFlight of the key's timer
-	for _, ti := range w.dec.CP.VerifTemplates() {
-		if ti.ObsDomainID == w.keys[ki].dom && ti.TemplateID == w.keys[ki].tid {
-			if vt, ok := ti.Timer.(*vclock.Timer); ok && vt != nil {
-				return w.clk.InFlight(vt)
-			}
+	for _, p := range w.clk.PendingList() {
+		if k2, known := w.timerKey[p.T.ID]; known && k2 == ki {
+			return true
 		}
 	}
 	return false
